@@ -990,3 +990,7 @@ m('c18-count-digits-single-correction', ['C18', 'C07'], 'count_decimal_digits_ui
 m('c18-count-digits-out-of-step', ['C18', 'C07'], 'count_decimal_digits_uint:num-is-ten-to-the-digits', [
   ('src/arithmetic/mod.rs', "        num *= 10u8;\n        digits += 1;", "        num *= 100u8;\n        digits += 1;")],
   'num multiplied by 100 per counted digit')
+# ---- C15 capacity boundary of the sign tables
+m('c15-to-i128-early-none-38', ['C15'], 'to_i128:sign=Plus,scale=-38', [
+  ('src/impl_num.rs', "            Sign::Plus | Sign::Minus => self.to_owned_with_scale(0).int_val.to_i128(),", "            Sign::Plus | Sign::Minus if self.scale <= -38 => None,\n            Sign::Plus | Sign::Minus => self.to_owned_with_scale(0).int_val.to_i128(),")],
+  'values with scale -38 are declared out of range although 1e38 fits an i128')
